@@ -129,19 +129,18 @@ class ExecutionContext:
                         case LinearIR.VariableAccessScope.FUNCTION_LOCAL:
                             localScope[ref] = localScope[instruction.Variable]
                 case LinearIR.OpCode.STORE:
+                    # Assignment copies: arrays and structures are updated in
+                    # place, so two variables must never share one
+                    value = copy.deepcopy(
+                        localScope[instruction.Store.Reference]
+                    )
                     match instruction.Scope:
                         case LinearIR.VariableAccessScope.GLOBAL:
-                            self.__globalScope[instruction.Variable] = (
-                                localScope[instruction.Store.Reference]
-                            )
+                            self.__globalScope[instruction.Variable] = value
                         case LinearIR.VariableAccessScope.FUNCTION_ARGUMENT:
-                            args[instruction.Variable] = localScope[
-                                instruction.Store.Reference
-                            ]
+                            args[instruction.Variable] = value
                         case LinearIR.VariableAccessScope.FUNCTION_LOCAL:
-                            localScope[instruction.Variable] = localScope[
-                                instruction.Store.Reference
-                            ]
+                            localScope[instruction.Variable] = value
                 case (
                     LinearIR.OpCode.LOAD_ARRAY
                     | LinearIR.OpCode.VECTOR_GET
@@ -162,7 +161,7 @@ class ExecutionContext:
                     ref = instruction.Reference
                     localScope[instruction.Variable.Reference][
                         instruction.Member
-                    ] = localScope[instruction.Store.Reference]
+                    ] = copy.deepcopy(localScope[instruction.Store.Reference])
                 case LinearIR.OpCode.SHUFFLE:
                     ref = instruction.Reference
                     indices = instruction.Indices
@@ -180,7 +179,7 @@ class ExecutionContext:
                     localScope[ref] = result
                 case LinearIR.OpCode.STORE_ARRAY:
                     ref = instruction.Reference
-                    var = localScope[instruction.Store.Reference]
+                    var = copy.deepcopy(localScope[instruction.Store.Reference])
                     array = instruction.Array.Reference
                     localScope[array][
                         localScope[instruction.Index.Reference]
